@@ -363,6 +363,15 @@ def evaluate(case):
             if seps[i] == "" and gk.need_space(toks[i - 1][1], toks[i][1]):
                 seps[i] = " "
         text, _pos = gk.render(toks, seps)
+        if inst.get("poison") is not None:
+            # the same parser object first gets a text it must reject (never closed comment, foreign character, text cut
+            # short): whatever that call leaves behind must not touch the next one
+            bad = ["[ a /* never closed", "a $ b", text[:max(0, len(text) // 2)] + " /*", "{ a : ", "( ( ("][inst["poison"] % 5]
+            try:
+                parser.parse(bad)
+            except Exception:   # noqa
+                pass
+            classes.add("rejected_text_parsed_before")
         kind, res, _st = parse_guarded(L, parser, text, len(toks))
         evals += 1
         ctx = f"schema={fields!r} text={text!r}"
@@ -650,6 +659,7 @@ def st_case(draw, maxdepth=3):
         seps = draw(st.lists(gk.st_sep(), min_size=0, max_size=40))
         instances.append({"data": data, "seps": seps, "expect_error": bool(flags.get("error")),
                           "has_final": bool(flags.get("final")), "variant": draw(st.integers(0, 1)),
+                          "poison": draw(st.none() | st.none() | st.integers(0, 4)),
                           "lead_lex": draw(st.integers(0, 7))})
     lead = draw(st.sampled_from([None, None, "WORD", "NUM"]))
     return {"fields": fields, "instances": instances, "lead": lead, "wrap": draw(st.sampled_from([0, 0, 1, 2, 3])),
